@@ -78,6 +78,45 @@ var c23SelfTests = []SelfTest{
 	{Name: "reply port little-endian", ExpectRule: "C23.R3", Edits: []Edit{
 		{File: "internal/socks5/handler.go", Old: "\tbinary.BigEndian.PutUint16(buf[4+len(addrBytes):], bindPort)\n", New: "\tbinary.LittleEndian.PutUint16(buf[4+len(addrBytes):], bindPort)\n"},
 	}},
+	{Name: "truncated hand-built failure reply bypassing the encoder", ExpectRule: "C23.R3", Edits: []Edit{
+		{File: "internal/socks5/handler.go", Old: "\t\th.sendReply(conn, ReplyCmdNotSupported, nil, 0)\n\t\treturn ErrUDPDisabled\n", New: "\t\tconn.Write([]byte{SOCKS5Version, ReplyCmdNotSupported, 0x00})\n\t\treturn ErrUDPDisabled\n"},
+	}},
+	// ---- R5
+	{Name: "reply encoded in a pooled buffer that a helper's defer puts back before the write (seed C23-b class)", ExpectRule: "C23.R5", Edits: []Edit{
+		{File: "internal/socks5/handler.go", Old: "\tbuf := make([]byte, 4+len(addrBytes)+2)\n", New: "\tbuf := pooledReplyBuf(4 + len(addrBytes) + 2)\n"},
+		{File: "internal/socks5/handler.go", Old: "// sendReply sends a SOCKS5 reply.\n", New: "var replyBufPool = sync.Pool{New: func() any { return new([64]byte) }}\n\nfunc pooledReplyBuf(n int) []byte {\n\tb := replyBufPool.Get().(*[64]byte)\n\tdefer replyBufPool.Put(b)\n\treturn b[:n]\n}\n\n// sendReply sends a SOCKS5 reply.\n"},
+	}},
+	{Name: "pooled reply buffer put back explicitly before the write", ExpectRule: "C23.R5", Edits: []Edit{
+		{File: "internal/socks5/handler.go", Old: "\tbuf := make([]byte, 4+len(addrBytes)+2)\n\tbuf[0] = SOCKS5Version\n\tbuf[1] = reply\n\tbuf[2] = 0x00 // RSV\n\tbuf[3] = addrType\n\tcopy(buf[4:], addrBytes)\n\tbinary.BigEndian.PutUint16(buf[4+len(addrBytes):], bindPort)\n\n\t_, err := conn.Write(buf)\n", New: "\tbuf := replyBufPool.Get().(*[22]byte)\n\tbuf[0] = SOCKS5Version\n\tbuf[1] = reply\n\tbuf[2] = 0x00 // RSV\n\tbuf[3] = addrType\n\tn := 4 + copy(buf[4:20], addrBytes)\n\tbinary.BigEndian.PutUint16(buf[n:], bindPort)\n\tout := buf[:n+2]\n\treplyBufPool.Put(buf)\n\n\t_, err := conn.Write(out)\n"},
+		{File: "internal/socks5/handler.go", Old: "// sendReply sends a SOCKS5 reply.\n", New: "var replyBufPool = sync.Pool{New: func() any { return new([22]byte) }}\n\n// sendReply sends a SOCKS5 reply.\n"},
+	}},
+	{Name: "reply encoded in a scratch buffer of the shared Handler", ExpectRule: "C23.R5", Edits: []Edit{
+		{File: "internal/socks5/handler.go", Old: "\tbuf := make([]byte, 4+len(addrBytes)+2)\n", New: "\tbuf := h.replyScratch[:4+len(addrBytes)+2]\n"},
+		{File: "internal/socks5/handler.go", Old: "\tauthenticators []Authenticator\n\tdialer         Dialer\n", New: "\tauthenticators []Authenticator\n\tdialer         Dialer\n\treplyScratch   [64]byte\n"},
+	}},
+	{Name: "reply encoded in a package-level buffer", ExpectRule: "C23.R5", Edits: []Edit{
+		{File: "internal/socks5/handler.go", Old: "\tbuf := make([]byte, 4+len(addrBytes)+2)\n", New: "\tbuf := replyScratch[:4+len(addrBytes)+2]\n"},
+		{File: "internal/socks5/handler.go", Old: "// sendReply sends a SOCKS5 reply.\n", New: "var replyScratch [64]byte\n\n// sendReply sends a SOCKS5 reply.\n"},
+	}},
+	// ---- more R1
+	{Name: "domain name canonicalised before dialing (seed C23-a class)", ExpectRule: "C23.R1", Edits: []Edit{
+		{File: "internal/socks5/handler.go", Old: "\t\treq.DestAddr = string(domain)\n", New: "\t\treq.DestAddr = string(bytes.TrimRight(domain, \".\"))\n"},
+		{File: "internal/socks5/handler.go", Old: "import (\n\t\"context\"\n", New: "import (\n\t\"bytes\"\n\t\"context\"\n"},
+	}},
+	{Name: "request rewritten by the dispatcher after parsing (default port)", ExpectRule: "C23.R1", Edits: []Edit{
+		{File: "internal/socks5/handler.go", Old: "\t// Dispatch based on command\n", New: "\tif req.DestPort == 0 {\n\t\treq.DestPort = 80\n\t}\n\t// Dispatch based on command\n"},
+	}},
+	{Name: "host lower-cased at dial time", ExpectRule: "C23.R1", Edits: []Edit{
+		{File: "internal/socks5/handler.go", Old: "targetAddr := net.JoinHostPort(req.DestAddr, strconv.Itoa(int(req.DestPort)))", New: "targetAddr := net.JoinHostPort(strings.ToLower(req.DestAddr), strconv.Itoa(int(req.DestPort)))"},
+		{File: "internal/socks5/handler.go", Old: "import (\n\t\"context\"\n", New: "import (\n\t\"context\"\n\t\"strings\"\n"},
+	}},
+	{Name: "request header read into a scratch buffer of the shared Handler", ExpectRule: "C23.R1", Edits: []Edit{
+		{File: "internal/socks5/handler.go", Old: "\theader := make([]byte, 4)\n\tif _, err := io.ReadFull(conn, header); err != nil {\n\t\treturn nil, err\n\t}\n\n\tif header[0] != SOCKS5Version {\n\t\treturn nil, fmt.Errorf(\"unsupported SOCKS version: %d\", header[0])\n\t}\n\n\treq := &Request{", New: "\theader := h.hdrScratch[:]\n\tif _, err := io.ReadFull(conn, header); err != nil {\n\t\treturn nil, err\n\t}\n\n\tif header[0] != SOCKS5Version {\n\t\treturn nil, fmt.Errorf(\"unsupported SOCKS version: %d\", header[0])\n\t}\n\n\treq := &Request{"},
+		{File: "internal/socks5/handler.go", Old: "\tauthenticators []Authenticator\n\tdialer         Dialer\n", New: "\tauthenticators []Authenticator\n\tdialer         Dialer\n\thdrScratch     [4]byte\n"},
+	}},
+	{Name: "domain length sign-extended (names of 128+ bytes)", ExpectRule: "C23.R1", Edits: []Edit{
+		{File: "internal/socks5/handler.go", Old: "\t\tdomainLen := int(lenBuf[0])\n\t\tif domainLen == 0 {", New: "\t\tdomainLen := int(int8(lenBuf[0])) & 0x7f\n\t\tif domainLen == 0 {"},
+	}},
 	// ---- R4
 	{Name: "UDP header minimum length weakened", ExpectRule: "C23.R4", Edits: []Edit{
 		{File: "internal/socks5/udp.go", Old: "\tif len(data) < 10 {", New: "\tif len(data) < 3 {"},
@@ -105,6 +144,14 @@ var c23SelfTests = []SelfTest{
 	}},
 	{Name: "rewrite: reply encoder with switch and early address normalisation", Edits: []Edit{
 		{File: "internal/socks5/handler.go", Old: "\tif ipv4 := bindIP.To4(); ipv4 != nil {\n\t\taddrType = AddrTypeIPv4\n\t\taddrBytes = ipv4\n\t} else if bindIP != nil {\n\t\taddrType = AddrTypeIPv6\n\t\taddrBytes = bindIP\n\t} else {\n\t\taddrType = AddrTypeIPv4\n\t\taddrBytes = make([]byte, 4) // 0.0.0.0\n\t}\n", New: "\tipv4 := bindIP.To4()\n\tswitch {\n\tcase bindIP == nil:\n\t\taddrType, addrBytes = AddrTypeIPv4, make([]byte, net.IPv4len)\n\tcase ipv4 == nil:\n\t\taddrType, addrBytes = AddrTypeIPv6, bindIP\n\tdefault:\n\t\taddrType, addrBytes = AddrTypeIPv4, ipv4\n\t}\n"},
+	}},
+	{Name: "rewrite: reply encoded in a pooled array that is put back after the write", Edits: []Edit{
+		{File: "internal/socks5/handler.go", Old: "\tbuf := make([]byte, 4+len(addrBytes)+2)\n\tbuf[0] = SOCKS5Version\n\tbuf[1] = reply\n\tbuf[2] = 0x00 // RSV\n\tbuf[3] = addrType\n\tcopy(buf[4:], addrBytes)\n\tbinary.BigEndian.PutUint16(buf[4+len(addrBytes):], bindPort)\n\n\t_, err := conn.Write(buf)\n", New: "\tbuf := replyBufPool.Get().(*[22]byte)\n\tdefer replyBufPool.Put(buf)\n\tbuf[0] = SOCKS5Version\n\tbuf[1] = reply\n\tbuf[2] = 0x00 // RSV\n\tbuf[3] = addrType\n\tn := 4 + copy(buf[4:20], addrBytes)\n\tbinary.BigEndian.PutUint16(buf[n:], bindPort)\n\n\t_, err := conn.Write(buf[:n+2])\n"},
+		{File: "internal/socks5/handler.go", Old: "// sendReply sends a SOCKS5 reply.\n", New: "var replyBufPool = sync.Pool{New: func() any { return new([22]byte) }}\n\n// sendReply sends a SOCKS5 reply.\n"},
+	}},
+	{Name: "rewrite: reply built by an encoding helper that returns a fresh slice", Edits: []Edit{
+		{File: "internal/socks5/handler.go", Old: "\tbuf := make([]byte, 4+len(addrBytes)+2)\n\tbuf[0] = SOCKS5Version\n\tbuf[1] = reply\n\tbuf[2] = 0x00 // RSV\n\tbuf[3] = addrType\n\tcopy(buf[4:], addrBytes)\n\tbinary.BigEndian.PutUint16(buf[4+len(addrBytes):], bindPort)\n\n\t_, err := conn.Write(buf)\n", New: "\t_, err := conn.Write(encodeReplyBytes(reply, addrType, addrBytes, bindPort))\n"},
+		{File: "internal/socks5/handler.go", Old: "// sendReply sends a SOCKS5 reply.\n", New: "func encodeReplyBytes(reply, addrType byte, addrBytes []byte, bindPort uint16) []byte {\n\tbuf := make([]byte, 4+len(addrBytes)+2)\n\tbuf[0] = SOCKS5Version\n\tbuf[1] = reply\n\tbuf[2] = 0x00 // RSV\n\tbuf[3] = addrType\n\tcopy(buf[4:], addrBytes)\n\tbinary.BigEndian.PutUint16(buf[4+len(addrBytes):], bindPort)\n\treturn buf\n}\n\n// sendReply sends a SOCKS5 reply.\n"},
 	}},
 	{Name: "rewrite: UDP header parser with a single combined length check per case", Edits: []Edit{
 		{File: "internal/socks5/udp.go", Old: "\t\tif len(data) < offset+1 {\n\t\t\treturn nil, nil, errors.New(\"datagram too short for domain length\")\n\t\t}\n\t\tdomainLen := int(data[offset])\n\t\toffset++\n\t\tif len(data) < offset+domainLen+2 {\n", New: "\t\tdomainLen := int(data[offset])\n\t\toffset++\n\t\tif offset+domainLen+2 > len(data) {\n"},
@@ -143,6 +190,7 @@ func runC23(p *kit.Program, r *kit.Report) {
 	r.Rule("C23.R1", "the dial address is JoinHostPort(req.DestAddr, decimal(req.DestPort)) on tcp; the request parser decodes command, address type, address and port from exactly the wire bytes of RFC 1928 with full reads; the dispatcher runs the dialing handler only for CONNECT with the parsed request")
 	r.Rule("C23.R2", "when no supported command / address type matched, reply 7 / 8 is sent and nothing is executed")
 	r.Rule("C23.R3", "the reply encoder writes VER=5, REP, RSV=0, ATYP consistent with the copied address bytes, length 4+len(addr)+2 and the port big-endian after the address")
+	r.Rule("C23.R5", "the reply bytes handed to conn.Write are exclusively held by the encoding call until the write returned: not taken from shared memory, not put back into a pool, published, sent or handed to a goroutine before")
 	r.Rule("C23.R4", "every index, slice and fixed-size binary accessor in package socks5 is within bounds (construction, dominating length guard, or read-count post-condition)")
 	cx := &c23cx{p: p, r: r, pkg: kit.PkgPath("internal/socks5"),
 		encoders: map[*ssa.Function]int{}, encPaths: map[*ssa.Function][]*c23Path{},
@@ -162,8 +210,10 @@ func runC23(p *kit.Program, r *kit.Report) {
 	}
 	cx.ruleDial()
 	cx.ruleParser()
+	cx.ruleRequestWriters()
 	cx.ruleDispatcher()
 	cx.ruleReply()
+	cx.ruleRawReplies()
 	cx.ruleBounds()
 }
 
@@ -200,20 +250,26 @@ func (cx *c23cx) findRoles() {
 				cx.parserSet[fn] = true
 			}
 		}
-		// reply encoder: writes to a net.Conn parameter a buffer whose byte 1 is a byte parameter
-		hasConn, hasByte := false, false
-		for _, prm := range fn.Params {
+		// reply encoder: writes to a net.Conn parameter a buffer one of whose header bytes is a byte
+		// parameter. The buffer may be built by helpers (inlined) and may come from a pool.
+		hasConn, byteIdx := false, -1
+		for i, prm := range fn.Params {
 			hasConn = hasConn || c23IsNetConn(prm.Type())
-			hasByte = hasByte || c23IsByte(prm.Type())
+			if c23IsByte(prm.Type()) {
+				byteIdx = i
+			}
 		}
-		if !hasConn || !hasByte {
+		if !hasConn || byteIdx < 0 {
 			continue
 		}
-		ex := &c23Exec{p: p, maxPaths: 400}
+		ex := &c23Exec{p: p, maxPaths: 600, inline: func(callee *ssa.Function, depth int) bool {
+			return depth < 2 && kit.FuncPkgPath(callee) == cx.pkg && len(callee.Blocks) <= 40
+		}}
 		ex.run(fn)
 		if ex.overflow {
 			continue
 		}
+		unowned := ""
 		for _, pa := range ex.paths {
 			for _, ev := range pa.st.events {
 				if ev.kind != "call" || ev.callee != "net.Conn.Write" || len(ev.args) < 2 || !ev.args[0].isParam() {
@@ -227,7 +283,25 @@ func (cx *c23cx) findRoles() {
 							cx.encPaths[fn] = ex.paths
 						}
 					}
+				} else if what := c23SharedRoot(pa.st, ev.args[1]); what != "" {
+					unowned = what
 				}
+			}
+		}
+		// a function that is handed constant reply codes and writes from memory it does not own is
+		// the reply encoder as well: the layout cannot be examined, the ownership rule reports it
+		if _, found := cx.encoders[fn]; !found && unowned != "" {
+			nConst := 0
+			for _, c := range p.StaticCallers(fn) {
+				if byteIdx < len(c.Common().Args) {
+					if _, isConst := kit.ConstInt(c.Common().Args[byteIdx]); isConst {
+						nConst++
+					}
+				}
+			}
+			if nConst >= 2 {
+				cx.encoders[fn] = byteIdx
+				cx.encPaths[fn] = ex.paths
 			}
 		}
 	}
@@ -583,6 +657,11 @@ func (cx *c23cx) ruleParser() {
 				}
 			}
 			for i, rd := range reads {
+				shared := ""
+				if rd.obj < 0 && len(rd.args) > 1 {
+					shared = c23SharedRoot(st, rd.args[1])
+				}
+				check(shared == "", fmt.Sprintf("read #%d stores the request bytes in %s: concurrent connections overwrite each other's request while it is being parsed", i, shared))
 				check(rd.full, fmt.Sprintf("read #%d of the request may return fewer bytes than the field needs (not io.ReadFull): a request split across TCP segments is mis-parsed", i))
 				check(len(rd.args) > 0 && st.show(rd.args[0]) == "param:"+c23ConnParamName(fn), fmt.Sprintf("read #%d does not read from the client connection", i))
 			}
@@ -680,6 +759,48 @@ func (cx *c23cx) ruleParser() {
 		if nDefault == 0 {
 			r.Violation("C23.R2", fname+" unsupported address type", fpos, "no path of the parser rejects an address type that matches none of the supported values")
 		}
+	}
+}
+
+// ruleRequestWriters: the decoded fields are written by the parser (and the helpers it calls)
+// only; any other store changes what is dialed after the request was parsed.
+func (cx *c23cx) ruleRequestWriters() {
+	p, r := cx.p, cx.r
+	allowed := map[*ssa.Function]bool{}
+	var add func(fn *ssa.Function, d int)
+	add = func(fn *ssa.Function, d int) {
+		if fn == nil || allowed[fn] || d > 4 {
+			return
+		}
+		allowed[fn] = true
+		for _, f := range kit.WithClosures(fn) {
+			for _, c := range kit.Calls(f) {
+				if cal := kit.CalleeOf(c); cal.Static != nil && kit.FuncPkgPath(cal.Static) == cx.pkg {
+					add(kit.TopLevel(cal.Static), d+1)
+				}
+			}
+		}
+	}
+	for _, fn := range cx.parsers {
+		add(fn, 0)
+	}
+	n, ord := 0, map[string]int{}
+	for _, f := range []*types.Var{cx.fCmd, cx.fAtyp, cx.fAddr, cx.fPort} {
+		for _, acc := range p.FieldAccessesOfKind(f, kit.FieldStore, kit.FieldAddrUse) {
+			top := kit.TopLevel(acc.Fn)
+			if allowed[top] {
+				n++
+				continue
+			}
+			k := kit.FuncName(top) + " writes Request." + f.Name()
+			ord[k]++
+			r.Violation("C23.R1", fmt.Sprintf("%s #%d", k, ord[k]), p.Pos(acc.Instr.Pos()),
+				"Request.%s is modified outside the request parser: what is dialed (or dispatched) is no longer exactly what the client's request encoded", f.Name())
+		}
+	}
+	r.Count("request_field_stores_in_parser", n)
+	if len(ord) == 0 {
+		r.OK("C23.R1", "writers of Request.Command/AddrType/DestAddr/DestPort", p.Pos(cx.parsers[0].Pos()), "%d store(s), all inside the request parser and its helpers", n)
 	}
 }
 
@@ -843,17 +964,24 @@ func (cx *c23cx) ruleReply() {
 			pos string
 		}
 		res := map[string]*verdict{}
+		ownBad, ownPos := "", ""
 		for _, pa := range cx.encPaths[fn] {
 			st := pa.st
 			if st.truncated {
 				r.Floor("reply encoder %s contains a loop the path evaluation cannot follow", fname)
 				break
 			}
-			for _, ev := range st.events {
+			for ei, ev := range st.events {
 				if ev.kind != "call" || ev.callee != "net.Conn.Write" || len(ev.args) < 2 {
 					continue
 				}
 				nWrites++
+				if why := cx.replyOwnership(pa, ei, ev); why != "" && ownBad == "" {
+					ownBad, ownPos = why, p.Pos(ev.in.Pos())
+				}
+				if c23SharedRoot(st, ev.args[1]) != "" {
+					continue // layout cannot be examined; reported by the ownership rule
+				}
 				ok, why, kind := cx.replyLayout(fn, replyIdx, pa, ev)
 				key := fname + " reply with " + kind
 				if v := res[key]; v == nil {
@@ -862,6 +990,14 @@ func (cx *c23cx) ruleReply() {
 					v.ok, v.why = false, why
 				}
 			}
+		}
+		if nWrites > 0 {
+			if ownPos == "" {
+				ownPos = p.Pos(fn.Pos())
+			}
+			r.Decide(ownBad == "", "C23.R5", fname+" reply buffer ownership", ownPos,
+				"the bytes handed to conn.Write live in memory that this call allocated or holds exclusively until the write returned",
+				"the reply bytes can change between encoding and the write: "+ownBad+". The Handler serves all connections concurrently, so another connection's reply overwrites this one's (wrong reply code / malformed reply)")
 		}
 		r.Count("reply_write_paths", nWrites)
 		r.Require(nWrites >= 1, "floor: reply encoder %s never writes", fname)
@@ -878,25 +1014,179 @@ func (cx *c23cx) ruleReply() {
 	}
 }
 
+// ruleRawReplies: outside the reply encoder no function of the package writes a hand-built
+// buffer that starts with the SOCKS version byte and is longer than the two-byte negotiation
+// messages: such a write is a reply that escapes the layout rule.
+func (cx *c23cx) ruleRawReplies() {
+	p, r := cx.p, cx.r
+	n := 0
+	for _, fn := range p.FuncsInPkg("internal/socks5") {
+		if _, isEnc := cx.encoders[kit.TopLevel(fn)]; isEnc {
+			continue
+		}
+		for _, c := range kit.Calls(fn) {
+			cal := kit.CalleeOf(c)
+			if !cal.Iface || cal.Name != "Write" || (cal.Pkg != "net" && cal.Pkg != "io") {
+				continue
+			}
+			buf := kit.Arg(c, 0)
+			if buf == nil {
+				continue
+			}
+			rg, ok := kit.AddrRange(buf)
+			if !ok || rg.Root == nil || rg.Lo != 0 {
+				continue
+			}
+			size := int64(-1)
+			switch x := rg.Root.(type) {
+			case *ssa.Alloc:
+				if l, ok := c23ArrayLen(x.Type()); ok {
+					size = l
+				}
+			case *ssa.MakeSlice:
+				if l, ok := kit.ConstInt(x.Len); ok {
+					size = l
+				}
+			default:
+				continue
+			}
+			if rg.Hi >= 0 {
+				size = rg.Hi
+			}
+			if size == 2 {
+				continue // method selection / sub-negotiation status
+			}
+			ver := false
+			kit.Instrs(fn, func(in ssa.Instruction) {
+				if st, ok := in.(*ssa.Store); ok {
+					if ar, ok := kit.AddrRange(st.Addr); ok && ar.Root == rg.Root && ar.Lo == 0 && ar.Hi == 1 {
+						if k, ok := kit.ConstInt(st.Val); ok && k == 5 {
+							ver = true
+						}
+					}
+				}
+			})
+			if !ver {
+				continue
+			}
+			n++
+			r.Violation("C23.R3", fmt.Sprintf("%s hand-built reply #%d", kit.FuncName(kit.TopLevel(fn)), n), p.Pos(c.Pos()),
+				"a buffer starting with the SOCKS version byte (%d bytes) is written to the client outside the reply encoder: this reply is not covered by the layout rule (a short or mis-ordered reply desynchronises the client)", size)
+		}
+	}
+	if n == 0 {
+		r.OK("C23.R3", "replies written outside the encoder", p.Pos(cx.parsers[0].Pos()), "none: every SOCKS5 reply goes through the reply encoder")
+	}
+}
+
+// c23SharedRoot: the slice term is rooted in memory shared between connections (a package-level
+// variable or a field reached from a parameter such as the Handler receiver); "" otherwise
+// (memory of this call, a caller-supplied slice, or unknown).
+func c23SharedRoot(st *c23State, t *c23T) string {
+	field := ""
+	for t != nil {
+		switch t.op {
+		case "sl", "elem", "conv", "load":
+			t = t.args[0]
+		case "fld", "fldv":
+			if field == "" {
+				field = t.s
+			}
+			t = t.args[0]
+		case "gload", "global":
+			return "package-level variable " + t.s
+		case "param":
+			if field != "" {
+				return "field " + field + " reached from parameter " + t.s + ", which all connections share"
+			}
+			return ""
+		default:
+			return ""
+		}
+	}
+	return ""
+}
+
+// replyOwnership: "" if the buffer written by event w (index wi of the path) is exclusively held
+// by this call until the write; otherwise what breaks the ownership.
+func (cx *c23cx) replyOwnership(pa *c23Path, wi int, w c23Event) string {
+	st := pa.st
+	o, _, _, ok := st.resolveSlice(w.args[1])
+	if !ok {
+		if what := c23SharedRoot(st, w.args[1]); what != "" {
+			return "the reply is encoded in " + what
+		}
+		return ""
+	}
+	for k := 0; k < wi; k++ {
+		ev := st.events[k]
+		pos := cx.p.Pos(ev.in.Pos())
+		switch ev.kind {
+		case "call":
+			if ev.callee == "sync.Pool.Put" {
+				for _, a := range ev.args {
+					if st.refsObj(a, o.id) {
+						when := "before the write"
+						if ev.defer_ {
+							when = "by a deferred call that runs when the encoding helper returns, before the caller writes"
+						}
+						return "the buffer is put back into the pool at " + pos + " " + when + " (the next Get hands the same array to another goroutine)"
+					}
+				}
+			}
+			if ev.defer_ && ev.static != nil && ev.static.Parent() != nil {
+				// deferred closure: releases what it captured if its body puts into a pool
+				for _, c := range kit.Calls(ev.static) {
+					if kit.CalleeOf(c).String() == "sync.Pool.Put" {
+						for _, a := range ev.args {
+							if st.refsObj(a, o.id) || a.op == "obj" {
+								return "a deferred closure at " + pos + " puts the buffer back into the pool before the caller writes it"
+							}
+						}
+					}
+				}
+			}
+		case "store":
+			if ev.obj == -1 && st.refsObj(ev.val, o.id) {
+				if what := c23SharedRoot(st, ev.idx); what != "" {
+					return "the buffer is published in " + what + " at " + pos + " before the write"
+				}
+			}
+		case "go":
+			for _, a := range ev.args {
+				if st.refsObj(a, o.id) {
+					return "the buffer is handed to a goroutine started at " + pos + " before the write"
+				}
+			}
+		case "send":
+			if st.refsObj(ev.val, o.id) {
+				return "the buffer is sent on a channel at " + pos + " before the write"
+			}
+		}
+	}
+	return ""
+}
+
 // replyLayout checks one conn.Write of the reply encoder on one path. kind names the address
 // source (used in the obligation key).
 func (cx *c23cx) replyLayout(fn *ssa.Function, replyIdx int, pa *c23Path, w c23Event) (bool, string, string) {
 	st := pa.st
-	o, lo, hi, ok := st.resolveSlice(w.args[1])
+	o, lo, _, ok := st.resolveSlice(w.args[1])
 	if !ok {
-		return false, "the written buffer is not a locally built byte slice (layout not recognisable)", "unrecognised buffer"
+		return false, "the written buffer is not a byte slice built by this call (layout not recognisable)", "unrecognised buffer"
 	}
-	if z, isInt := lo.intVal(); !isInt || z != 0 || (hi != nil && st.show(hi) != st.show(o.lenT)) {
-		return false, "only a part of the reply buffer is written", "partial buffer"
+	if z, isInt := lo.intVal(); !isInt || z != 0 {
+		return false, "the reply is not written from the start of its buffer", "partial buffer"
 	}
 	// address bytes: the copy into the buffer at offset 4
 	var x *c23T
+	var cp c23Event
 	nCopies := 0
 	for _, ev := range st.events {
 		if ev.kind == "copy" && ev.obj == o.id {
 			nCopies++
 			if at, isInt := ev.idx.intVal(); isInt && at == 4 {
-				x = ev.val
+				x, cp = ev.val, ev
 			}
 		}
 	}
@@ -919,50 +1209,7 @@ func (cx *c23cx) replyLayout(fn *ssa.Function, replyIdx int, pa *c23Path, w c23E
 	if show(2) != "0" {
 		return false, "byte 2 (RSV) is " + show(2) + ", not 0", kind
 	}
-	atyp := show(3)
-	lenX := st.lenTerm(x)
-	cX, tX := st.linT(lenX)
-	cL, tL := st.linT(o.lenT)
-	sameTerms := func(a, b map[string]int64) bool {
-		if len(a) != len(b) {
-			return false
-		}
-		for k, v := range a {
-			if b[k] != v {
-				return false
-			}
-		}
-		return true
-	}
-	if cL != cX+6 || !sameTerms(tL, tX) {
-		return false, "the reply buffer is " + st.show(o.lenT) + " bytes, not 4+len(address)+2", kind
-	}
-	// port
-	nPut := 0
-	for _, ev := range st.events {
-		if ev.kind != "call" || !strings.HasSuffix(ev.callee, ".PutUint16") || len(ev.args) != 3 {
-			continue
-		}
-		po, plo, _, ok := st.resolveSlice(ev.args[1])
-		if !ok || po.id != o.id {
-			continue
-		}
-		nPut++
-		if ev.callee != "encoding/binary.bigEndian.PutUint16" {
-			return false, "the port is not written big-endian (" + ev.callee + ")", kind
-		}
-		c, t := st.linT(plo)
-		if c != cX+4 || !sameTerms(t, tX) {
-			return false, "the port is written at offset " + st.show(plo) + ", not 4+len(address)", kind
-		}
-		if pt := ev.args[2]; !pt.isParam() || int(pt.n) >= len(fn.Params) || fn.Params[pt.n].Type().String() != "uint16" {
-			return false, "the port written is " + st.show(pt) + ", not the port parameter", kind
-		}
-	}
-	if nPut != 1 {
-		return false, fmt.Sprintf("the port is written %d times with PutUint16 into the reply", nPut), kind
-	}
-	// ATYP agrees with the address bytes
+	// ATYP agrees with the address bytes; this fixes the address length n on this path
 	holds := func(rendered string, taken bool) bool {
 		for _, c := range st.conds {
 			if st.show(c.t) == rendered && c.taken == taken {
@@ -978,17 +1225,23 @@ func (cx *c23cx) replyLayout(fn *ssa.Function, replyIdx int, pa *c23Path, w c23E
 	isNil := func(s string) bool {
 		return holds("("+s+"!=nil)", false) || holds("("+s+"==nil)", true) || holds("(nil!="+s+")", false) || holds("(nil=="+s+")", true)
 	}
+	lenX := st.lenTerm(x)
+	constLen, lenKnown := lenX.intVal()
+	atyp := show(3)
+	var n int64
 	switch atyp {
 	case "1":
-		four := len(tX) == 0 && cX == 4
-		if !four && x.isCallOf("net.IP.To4") && nonNil(x) {
+		n = 4
+		four := lenKnown && constLen == 4
+		if !four && x.isCallOf("net.IP.To4") && (nonNil(x) || (len(x.args) == 1 && x.args[0].op == "gload" && strings.HasPrefix(x.args[0].s, "net.IPv4"))) {
 			four = true
 		}
 		if !four {
 			return false, "ATYP is 1 (IPv4) but the address bytes (" + st.show(x) + ") are not known to be 4 bytes long", kind
 		}
 	case "4":
-		sixteen := len(tX) == 0 && cX == 16
+		n = 16
+		sixteen := lenKnown && constLen == 16
 		if !sixteen && x.isCallOf("net.IP.To16") && nonNil(x) {
 			sixteen = true
 		}
@@ -1000,6 +1253,42 @@ func (cx *c23cx) replyLayout(fn *ssa.Function, replyIdx int, pa *c23Path, w c23E
 		}
 	default:
 		return false, "byte 3 (ATYP) is " + atyp + ", not 1 or 4", kind
+	}
+	// with len(address) = n on this path: bytes copied, length written and port offset
+	env := map[string]int64{st.show(lenX): n}
+	dst, ok := st.evalInt(cp.lenT, env)
+	if !ok || dst < n {
+		return false, fmt.Sprintf("only %s bytes of room for a %d-byte address at offset 4", st.show(cp.lenT), n), kind
+	}
+	if cp.res != nil {
+		env[st.show(cp.res)] = n
+	}
+	if lw, ok := st.evalInt(st.lenTerm(w.args[1]), env); !ok || lw != n+6 {
+		return false, "the reply written is " + st.show(st.lenTerm(w.args[1])) + " bytes, not 4+len(address)+2", kind
+	}
+	// port
+	nPut := 0
+	for _, ev := range st.events {
+		if ev.kind != "call" || !strings.HasSuffix(ev.callee, ".PutUint16") || len(ev.args) != 3 {
+			continue
+		}
+		po, plo, _, ok := st.resolveSlice(ev.args[1])
+		if !ok || po.id != o.id {
+			continue
+		}
+		nPut++
+		if ev.callee != "encoding/binary.bigEndian.PutUint16" {
+			return false, "the port is not written big-endian (" + ev.callee + ")", kind
+		}
+		if at, ok := st.evalInt(plo, env); !ok || at != n+4 {
+			return false, "the port is written at offset " + st.show(plo) + ", not 4+len(address)", kind
+		}
+		if pt := ev.args[2]; !pt.isParam() || int(pt.n) >= len(fn.Params) || fn.Params[pt.n].Type().String() != "uint16" {
+			return false, "the port written is " + st.show(pt) + ", not the port parameter", kind
+		}
+	}
+	if nPut != 1 {
+		return false, fmt.Sprintf("the port is written %d times with PutUint16 into the reply", nPut), kind
 	}
 	return true, "", kind
 }
